@@ -1,9 +1,909 @@
-//! group `tsig` — stub (not built yet).
-#![allow(unused)]
+//! group `tsig` — C11: src/message/tsig.rs, src/rr/rdata/tsig.rs, `Writer::finish_with_mac`.
+//!
+//! ops (one case per line; byte strings hex, `-` = empty; names as uncompressed wire hex;
+//! times as decimal Unix seconds < 2^48; modes `req|resp|subs`; algorithms `hmac-sha1|hmac-sha256`):
+//!
+//!   sha <sha1|sha256> <msg>                          `sha1` / `sha2` crates     → ok <digest>
+//!   shavec <sha1|sha256> <msg> <expected>            same; the spec column is the published value
+//!   sharep <sha1|sha256> <octet> <count> <expected>  digest of `count` copies of one octet
+//!   hmac <alg> <key> <msg>                           `hmac` crate               → ok <mac>
+//!   hmacvec <alg> <key> <msg> <expected>             same; spec column = published value
+//!   tsign <mode> <alg> <key> <msg> <keyname> <time> <fudge> <origid> <error> <servertime> <pmac>
+//!        `PreparedTsigRr::sign_*` on `msg` (the message without the TSIG RR, final ARCOUNT)
+//!                                                                               → ok <mac> <rdata> | panic
+//!   twrite <mode> <alg> <key> <keyname> <time> <fudge> <origid> <error> <servertime> <pmac> <recipe> <prefix>
+//!        the message is built by the real `Writer` from `recipe`, `set_tsig`, `finish_with_mac`;
+//!        the finished message is read back with the real `Reader`; `prefix` (recorded when the case
+//!        was generated) must be the message up to the TSIG RR
+//!                                                   → ok <mac> <rdata of the TSIG RR> <owner of the TSIG RR>
+//!   tverify <mode> <alg> <key> <now> <msg> <keyname> <rdata> <pmac>
+//!        `ReadTsigRr::try_from(ReadRr{owner: keyname, TSIG, ANY, 0, rdata})` then `verify_*(msg, …)`
+//!                                   → ok | err:BadSig | err:BadTime | err:FormErr | panic | invalid-rdata
+//!   tvmsg <mode> <alg> <key> <now> <fullmsg> <pmac>
+//!        a complete message is taken apart by the real `Reader` (questions and all RRs but the last
+//!        skipped, last RR parsed, `ReadTsigRr::try_from`), then `verify_*`
+//!                                   → ok | err:… | panic | unreadable | rr:FormErr | rr:NotTsig
 use crate::common::*;
+use hmac::{Hmac, Mac};
+use quandary::class::Class;
+use quandary::message::reader::ReadRr;
+use quandary::message::tsig::{Algorithm, FromReadRrError, PreparedTsigRr, ReadTsigRr, VerificationError};
+use quandary::message::writer::{Hint, HintedName, TsigMode};
+use quandary::message::{ExtendedRcode, Qclass, Question, Reader, Writer};
+use quandary::name::{LowercaseName, Name};
+use quandary::rr::rdata::TimeSigned;
+use quandary::rr::{Rdata, Ttl, Type};
+use sha1::Sha1;
+use sha2::{Digest, Sha256};
+use std::borrow::Cow;
 
-pub fn run(_op: &str, _a: &[&str]) -> Option<String> {
-    None
+fn bad() -> Option<String> {
+    Some("bad-op".to_string())
 }
 
-pub fn gen(_rng: &mut Rng, _thorough: bool, _em: &mut Emitter) {}
+fn alg_of(s: &str) -> Option<Algorithm> {
+    match s {
+        "hmac-sha1" => Some(Algorithm::HmacSha1),
+        "hmac-sha256" => Some(Algorithm::HmacSha256),
+        _ => None,
+    }
+}
+
+fn alg_str(a: Algorithm) -> &'static str {
+    match a {
+        Algorithm::HmacSha1 => "hmac-sha1",
+        Algorithm::HmacSha256 => "hmac-sha256",
+    }
+}
+
+fn crate_sha(alg: &str, msg: &[u8]) -> Option<Vec<u8>> {
+    match alg {
+        "sha1" => Some(Sha1::digest(msg).to_vec()),
+        "sha256" => Some(Sha256::digest(msg).to_vec()),
+        _ => None,
+    }
+}
+
+fn crate_hmac(alg: Algorithm, key: &[u8], msg: &[u8]) -> Vec<u8> {
+    match alg {
+        Algorithm::HmacSha1 => {
+            let mut m = Hmac::<Sha1>::new_from_slice(key).unwrap();
+            m.update(msg);
+            m.finalize().into_bytes().to_vec()
+        }
+        Algorithm::HmacSha256 => {
+            let mut m = Hmac::<Sha256>::new_from_slice(key).unwrap();
+            m.update(msg);
+            m.finalize().into_bytes().to_vec()
+        }
+    }
+}
+
+fn lname(wire: &[u8]) -> Option<Box<LowercaseName>> {
+    Name::try_from_uncompressed_all(wire).ok().map(|n| n.into())
+}
+
+fn time_of(s: &str) -> Option<TimeSigned> {
+    TimeSigned::try_from_unix_time(s.parse::<u64>().ok()?).ok()
+}
+
+fn verr(e: VerificationError) -> String {
+    format!("err:{:?}", e)
+}
+
+#[allow(clippy::too_many_arguments)]
+fn prepared(keyname: &str, time: &str, fudge: &str, origid: &str, error: &str, servertime: &str) -> Option<PreparedTsigRr> {
+    Some(PreparedTsigRr {
+        key_name: lname(&unhex(keyname)?)?,
+        time_signed: time_of(time)?,
+        fudge: fudge.parse().ok()?,
+        original_id: origid.parse().ok()?,
+        error: ExtendedRcode::from(error.parse::<u16>().ok()?),
+        server_time: time_of(servertime)?,
+    })
+}
+
+fn tsig_mode(mode: &str, alg: Algorithm, key: &[u8], pmac: &[u8]) -> Option<TsigMode> {
+    Some(match mode {
+        "req" => TsigMode::Request { algorithm: alg, key: key.into() },
+        "resp" => TsigMode::Response { algorithm: alg, request_mac: pmac.into(), key: key.into() },
+        "subs" => TsigMode::Subsequent { algorithm: alg, prior_mac: pmac.into(), key: key.into() },
+        _ => return None,
+    })
+}
+
+/// Build a message with the real `Writer` from a recipe (`;`-separated steps), then `set_tsig` (at
+/// the step `tsig`, or at the end) and `finish_with_mac`. Returns (message, mac).
+fn write_message(recipe: &str, mode: TsigMode, rr: PreparedTsigRr) -> Result<(Vec<u8>, Option<Box<[u8]>>), String> {
+    let steps: Vec<&str> = if recipe == "-" { vec![] } else { recipe.split(';').collect() };
+    let mut buflen = 4096usize;
+    for s in &steps {
+        if let Some(n) = s.strip_prefix("buf:") {
+            buflen = n.parse().map_err(|_| "buf")?;
+        }
+    }
+    let mut buf = vec![0u8; buflen];
+    let len;
+    let mac;
+    {
+        let mut w = Writer::new(&mut buf, buflen).map_err(|e| format!("new:{:?}", e))?;
+        let mut tsig = Some((mode, rr));
+        for s in &steps {
+            let f: Vec<&str> = s.split(':').collect();
+            match f.as_slice() {
+                ["buf", _] => {}
+                ["id", n] => w.set_id(n.parse().map_err(|_| "id")?),
+                ["fl", bits] if bits.len() == 5 => {
+                    let b: Vec<bool> = bits.chars().map(|c| c == '1').collect();
+                    w.set_qr(b[0]);
+                    w.set_aa(b[1]);
+                    w.set_tc(b[2]);
+                    w.set_rd(b[3]);
+                    w.set_ra(b[4]);
+                }
+                ["q", name, qt, qc] => {
+                    let qname = Name::try_from_uncompressed_all(&unhex(name).ok_or("q")?).map_err(|_| "qname")?;
+                    let q = Question {
+                        qname,
+                        qtype: qt.parse::<u16>().map_err(|_| "qt")?.into(),
+                        qclass: qc.parse::<u16>().map_err(|_| "qc")?.into(),
+                    };
+                    w.add_question(&q).map_err(|e| format!("q:{:?}", e))?;
+                }
+                [sec @ ("an" | "ns" | "ar"), owner, ty, cl, ttl, rd] => {
+                    let owner = Name::try_from_uncompressed_all(&unhex(owner).ok_or("owner")?).map_err(|_| "owner")?;
+                    let rdv = unhex(rd).ok_or("rdata")?;
+                    let rdata: &Rdata = (&rdv[..]).try_into().map_err(|_| "rdata")?;
+                    let ty = Type::from(ty.parse::<u16>().map_err(|_| "type")?);
+                    let cl = Class::from(cl.parse::<u16>().map_err(|_| "class")?);
+                    let ttl = Ttl::from(ttl.parse::<u32>().map_err(|_| "ttl")?);
+                    let hn = HintedName::new(Hint::None, &owner);
+                    match *sec {
+                        "an" => w.add_answer_rr(hn, ty, cl, ttl, rdata, None),
+                        "ns" => w.add_authority_rr(hn, ty, cl, ttl, rdata, None),
+                        _ => w.add_additional_rr(hn, ty, cl, ttl, rdata, None),
+                    }
+                    .map_err(|e| format!("{}:{:?}", sec, e))?;
+                }
+                ["edns", n] => w.set_edns(n.parse().map_err(|_| "edns")?).map_err(|e| format!("edns:{:?}", e))?,
+                ["tsig"] => {
+                    if let Some((m, r)) = tsig.take() {
+                        w.set_tsig(m, r).map_err(|e| format!("tsig:{:?}", e))?;
+                    }
+                }
+                _ => return Err(format!("step:{}", s)),
+            }
+        }
+        if let Some((m, r)) = tsig.take() {
+            w.set_tsig(m, r).map_err(|e| format!("tsig:{:?}", e))?;
+        }
+        let (l, m) = w.finish_with_mac();
+        len = l;
+        mac = m;
+    }
+    buf.truncate(len);
+    Ok((buf, mac))
+}
+
+/// Take a finished message apart with the real `Reader`: (prefix up to the last RR, last RR).
+fn split_last_rr(msg: &[u8]) -> Result<(&[u8], ReadRr<'_>), String> {
+    let mut reader = Reader::try_from(msg).map_err(|e| format!("{:?}", e))?;
+    for _ in 0..reader.qdcount() {
+        reader.skip_question().map_err(|e| format!("{:?}", e))?;
+    }
+    let total = reader.ancount() as usize + reader.nscount() as usize + reader.arcount() as usize;
+    if total == 0 {
+        return Err("no-rr".into());
+    }
+    for _ in 0..total - 1 {
+        reader.skip_rr().map_err(|e| format!("{:?}", e))?;
+    }
+    let prefix = reader.message_to_cursor();
+    // only a TSIG record is parsed (other types are C18's business)
+    let peek = reader.peek_rr().map_err(|e| format!("{:?}", e))?;
+    if peek.rr_type() != Type::TSIG {
+        return Err("not-tsig".into());
+    }
+    let rr = peek.parse().map_err(|e| format!("{:?}", e))?;
+    if !reader.at_eom() {
+        return Err("trailing".into());
+    }
+    Ok((prefix, rr))
+}
+
+fn do_verify(rr: &ReadTsigRr, mode: &str, msg: &[u8], pmac: &[u8], alg: Algorithm, key: &[u8], now: TimeSigned) -> String {
+    let r = match mode {
+        "req" => rr.verify_request(msg, alg, key, now),
+        "resp" => rr.verify_response(msg, pmac, alg, key, now),
+        _ => rr.verify_subsequent(msg, pmac, alg, key, now),
+    };
+    match r {
+        Ok(()) => "ok".to_string(),
+        Err(e) => verr(e),
+    }
+}
+
+pub fn run(op: &str, a: &[&str]) -> Option<String> {
+    Some(match (op, a) {
+        ("sha", [alg, m]) | ("shavec", [alg, m, _]) => {
+            let Some(msg) = unhex(m) else { return bad() };
+            let Some(d) = crate_sha(alg, &msg) else { return bad() };
+            format!("ok {}", hex(&d))
+        }
+        ("sharep", [alg, octet, count, _]) => {
+            let (Some(o), Ok(n)) = (unhex(octet), count.parse::<usize>()) else { return bad() };
+            if o.len() != 1 || n > 1 << 26 {
+                return bad();
+            }
+            let Some(d) = crate_sha(alg, &vec![o[0]; n]) else { return bad() };
+            format!("ok {}", hex(&d))
+        }
+        ("hmac", [alg, k, m]) | ("hmacvec", [alg, k, m, _]) => {
+            let (Some(alg), Some(key), Some(msg)) = (alg_of(alg), unhex(k), unhex(m)) else { return bad() };
+            format!("ok {}", hex(&crate_hmac(alg, &key, &msg)))
+        }
+        ("tsign", [mode, alg, k, m, keyname, time, fudge, origid, error, servertime, pmac]) => {
+            let (Some(alg), Some(key), Some(msg), Some(pmac)) = (alg_of(alg), unhex(k), unhex(m), unhex(pmac)) else { return bad() };
+            let Some(p) = prepared(keyname, time, fudge, origid, error, servertime) else { return bad() };
+            if !matches!(*mode, "req" | "resp" | "subs") {
+                return bad();
+            }
+            guarded(|| {
+                let (rdata, mac) = match *mode {
+                    "req" => p.sign_request(&msg, alg, &key),
+                    "resp" => p.sign_response(&msg, &pmac, alg, &key),
+                    _ => p.sign_subsequent(&msg, &pmac, alg, &key),
+                };
+                format!("ok {} {}", hex(&mac), hex(rdata.octets()))
+            })
+        }
+        ("twrite", [mode, alg, k, keyname, time, fudge, origid, error, servertime, pmac, recipe, prefix]) => {
+            let (Some(alg), Some(key), Some(pmac), Some(prefix)) = (alg_of(alg), unhex(k), unhex(pmac), unhex(prefix)) else { return bad() };
+            let Some(p) = prepared(keyname, time, fudge, origid, error, servertime) else { return bad() };
+            let Some(tm) = tsig_mode(mode, alg, &key, &pmac) else { return bad() };
+            guarded(|| {
+                let (msg, mac) = match write_message(recipe, tm, p) {
+                    Ok(x) => x,
+                    Err(e) => return format!("setup-err:{}", e),
+                };
+                let Some(mac) = mac else { return "no-mac".to_string() };
+                let (pre, rr) = match split_last_rr(&msg) {
+                    Ok(x) => x,
+                    Err(e) => return format!("unreadable:{}", e),
+                };
+                if pre != &prefix[..] {
+                    return format!("prefix-mismatch {}", hex(pre));
+                }
+                if rr.class != Qclass::ANY.into() || u32::from(rr.ttl) != 0 {
+                    return "bad-class-ttl".to_string();
+                }
+                format!("ok {} {} {}", hex(&mac), hex(rr.rdata.octets()), hex(rr.owner.wire_repr()))
+            })
+        }
+        ("tverify", [mode, alg, k, now, m, keyname, rdata, pmac]) => {
+            let (Some(alg), Some(key), Some(msg), Some(kn), Some(rd), Some(pmac)) =
+                (alg_of(alg), unhex(k), unhex(m), unhex(keyname), unhex(rdata), unhex(pmac))
+            else {
+                return bad();
+            };
+            let (Some(now), Ok(owner)) = (time_of(now), Name::try_from_uncompressed_all(&kn)) else { return bad() };
+            if !matches!(*mode, "req" | "resp" | "subs") || rd.len() > 65535 {
+                return bad();
+            }
+            guarded(|| {
+                let rdata: Box<Rdata> = rd.clone().try_into().unwrap();
+                if rdata.validate_as_tsig().is_err() {
+                    return "invalid-rdata".to_string();
+                }
+                let rr = ReadRr {
+                    owner,
+                    rr_type: Type::TSIG,
+                    class: Qclass::ANY.into(),
+                    ttl: Ttl::from(0),
+                    rdata: Cow::Owned(rdata),
+                };
+                let tsig = match ReadTsigRr::try_from(rr) {
+                    Ok(t) => t,
+                    Err(FromReadRrError::FormErr) => return "rr:FormErr".to_string(),
+                    Err(FromReadRrError::NotTsig) => return "rr:NotTsig".to_string(),
+                };
+                do_verify(&tsig, mode, &msg, &pmac, alg, &key, now)
+            })
+        }
+        ("tvmsg", [mode, alg, k, now, m, pmac]) => {
+            let (Some(alg), Some(key), Some(msg), Some(pmac)) = (alg_of(alg), unhex(k), unhex(m), unhex(pmac)) else { return bad() };
+            let Some(now) = time_of(now) else { return bad() };
+            if !matches!(*mode, "req" | "resp" | "subs") {
+                return bad();
+            }
+            guarded(|| {
+                let (pre, rr) = match split_last_rr(&msg) {
+                    Ok(x) => x,
+                    Err(_) => return "unreadable".to_string(),
+                };
+                let tsig = match ReadTsigRr::try_from(rr) {
+                    Ok(t) => t,
+                    Err(FromReadRrError::FormErr) => return "rr:FormErr".to_string(),
+                    Err(FromReadRrError::NotTsig) => return "rr:NotTsig".to_string(),
+                };
+                // the caller (like the server) looks the algorithm up by the name in the RR
+                if Algorithm::from_name(tsig.algorithm()) != Some(alg) {
+                    return "alg-mismatch".to_string();
+                }
+                do_verify(&tsig, mode, pre, &pmac, alg, &key, now)
+            })
+        }
+        _ => return None,
+    })
+}
+
+// ------------------------------------------------------------------------------------------------
+// generators
+// ------------------------------------------------------------------------------------------------
+
+const MODES: [&str; 3] = ["req", "resp", "subs"];
+const ALGS: [Algorithm; 2] = [Algorithm::HmacSha1, Algorithm::HmacSha256];
+const BADTIME: u16 = 18;
+const MAX_TIME: u64 = (1 << 48) - 1;
+
+fn emit(em: &mut Emitter, case: String) -> String {
+    let mut it = case.split(' ');
+    let op = it.next().unwrap();
+    let args: Vec<&str> = it.collect();
+    let r = run(op, &args).unwrap_or_else(|| "bad-op".into());
+    em.emit(&case, &r);
+    r
+}
+
+fn rand_bytes(rng: &mut Rng, n: usize) -> Vec<u8> {
+    (0..n).map(|_| rng.byte()).collect()
+}
+
+fn rand_label(rng: &mut Rng, n: usize) -> Vec<u8> {
+    let mut v = vec![n as u8];
+    for _ in 0..n {
+        v.push(match rng.below(10) {
+            0 => rng.byte(),
+            1..=3 => b'A' + rng.below(26) as u8,
+            4 => b'0' + rng.below(10) as u8,
+            _ => b'a' + rng.below(26) as u8,
+        });
+    }
+    v
+}
+
+/// a valid uncompressed name (wire form)
+fn rand_name(rng: &mut Rng) -> Vec<u8> {
+    let mut v = Vec::new();
+    match rng.below(20) {
+        0 => {}                 // root
+        1 => {
+            // maximal: 255 octets
+            for _ in 0..3 {
+                v.extend(rand_label(rng, 63));
+            }
+            v.extend(rand_label(rng, 61));
+        }
+        2 => {
+            for _ in 0..rng.range(60, 127) {
+                v.extend(rand_label(rng, 1));
+            }
+        }
+        _ => {
+            for _ in 0..rng.range(1, 4) {
+                let n = rng.range(1, 10);
+                v.extend(rand_label(rng, n));
+            }
+        }
+    }
+    v.push(0);
+    v
+}
+
+fn rand_key(rng: &mut Rng) -> Vec<u8> {
+    let n = match rng.below(12) {
+        0 => 0,
+        1 => *rng.pick(&[1usize, 20, 32, 63, 64, 65, 127, 128, 129, 200]),
+        _ => rng.range(1, 200),
+    };
+    rand_bytes(rng, n)
+}
+
+fn rand_fudge(rng: &mut Rng) -> u16 {
+    match rng.below(8) {
+        0 => 0,
+        1 => 1,
+        2 => 65535,
+        3 => rng.below(65536) as u16,
+        _ => 300,
+    }
+}
+
+fn rand_time(rng: &mut Rng) -> u64 {
+    match rng.below(16) {
+        0 => 0,
+        1 => rng.below(400) as u64,           // smaller than most fudges: saturating_sub
+        2 => MAX_TIME,
+        3 => MAX_TIME - rng.below(70000) as u64,
+        4 => rng.next() & MAX_TIME,
+        5 => 0xffff_ffff + rng.below(3) as u64 - 1, // around 2^32
+        _ => 1_600_000_000 + rng.below(200_000_000) as u64,
+    }
+}
+
+fn rand_error(rng: &mut Rng) -> u16 {
+    match rng.below(10) {
+        0 => BADTIME,
+        1 => *rng.pick(&[16u16, 17, 18, 1, 9, 22, 65535]),
+        2 => rng.below(65536) as u16,
+        _ => 0,
+    }
+}
+
+/// A DNS message without its TSIG RR from a small encoder: header, questions, uncompressed RRs.
+/// ARCOUNT counts the (absent) TSIG RR unless an edge case is chosen.
+fn rand_message(rng: &mut Rng, small: bool) -> Vec<u8> {
+    let mut m = Vec::new();
+    m.extend(rand_bytes(rng, 4)); // id, flags
+    let qd = if rng.chance(4, 5) { 1 } else { rng.below(3) };
+    let (an, ns, ar) = if small { (rng.below(2), rng.below(2), rng.below(2)) } else { (rng.below(5), rng.below(3), rng.below(3)) };
+    let arcount: u16 = match rng.below(24) {
+        0 => 0,        // violates the precondition: `- 1` underflows
+        1 => 1,
+        2 => 0x0100,   // borrow across the two octets
+        3 => 0xffff,
+        4 => 0x8000,
+        _ => ar as u16 + 1,
+    };
+    for c in [qd as u16, an as u16, ns as u16, arcount] {
+        m.extend(c.to_be_bytes());
+    }
+    for _ in 0..qd {
+        m.extend(rand_name(rng));
+        m.extend(rand_bytes(rng, 4));
+    }
+    for _ in 0..an + ns + ar {
+        m.extend(rand_name(rng));
+        m.extend((*rng.pick(&[1u16, 16, 2, 28, 6, 41, 65280])).to_be_bytes());
+        m.extend(1u16.to_be_bytes());
+        m.extend(rand_bytes(rng, 4));
+        let n = if small { rng.below(12) } else { rng.below(60) };
+        m.extend((n as u16).to_be_bytes());
+        m.extend(rand_bytes(rng, n));
+    }
+    m
+}
+
+fn rand_pmac(rng: &mut Rng, mode: &str) -> Vec<u8> {
+    if mode == "req" {
+        return vec![];
+    }
+    let n = match rng.below(12) {
+        0 => 0,
+        1 => 20,
+        2 => *rng.pick(&[1usize, 10, 16, 64, 255, 256, 300]),
+        _ => 32,
+    };
+    rand_bytes(rng, n)
+}
+
+struct Signed {
+    mode: &'static str,
+    alg: Algorithm,
+    key: Vec<u8>,
+    msg: Vec<u8>,
+    keyname: Vec<u8>,
+    time: u64,
+    fudge: u16,
+    origid: u16,
+    error: u16,
+    servertime: u64,
+    pmac: Vec<u8>,
+    mac: Vec<u8>,
+}
+
+impl Signed {
+    fn other(&self) -> Vec<u8> {
+        if self.error == BADTIME { self.servertime.to_be_bytes()[2..].to_vec() } else { vec![] }
+    }
+    /// TSIG RDATA from its fields (the harness's own serialiser, so that single fields can be altered)
+    #[allow(clippy::too_many_arguments)]
+    fn rdata_with(&self, alg_name: &[u8], time: u64, fudge: u16, mac: &[u8], origid: u16, error: u16, other: &[u8], other_len: u16) -> Vec<u8> {
+        let mut v = alg_name.to_vec();
+        v.extend(&time.to_be_bytes()[2..]);
+        v.extend(fudge.to_be_bytes());
+        v.extend((mac.len() as u16).to_be_bytes());
+        v.extend(mac);
+        v.extend(origid.to_be_bytes());
+        v.extend(error.to_be_bytes());
+        v.extend(other_len.to_be_bytes());
+        v.extend(other);
+        v
+    }
+    fn alg_name(&self) -> Vec<u8> {
+        self.alg.name().wire_repr().to_vec()
+    }
+    fn rdata(&self, mac: &[u8]) -> Vec<u8> {
+        let o = self.other();
+        self.rdata_with(&self.alg_name(), self.time, self.fudge, mac, self.origid, self.error, &o, o.len() as u16)
+    }
+}
+
+#[allow(clippy::too_many_arguments)]
+fn verify_case(mode: &str, alg: Algorithm, key: &[u8], now: u64, msg: &[u8], keyname: &[u8], rdata: &[u8], pmac: &[u8]) -> String {
+    format!("tverify {} {} {} {} {} {} {} {}", mode, alg_str(alg), hex(key), now, hex(msg), hex(keyname), hex(rdata), hex(pmac))
+}
+
+/// times around the window of (t, fudge)
+fn window_times(t: u64, fudge: u16) -> Vec<u64> {
+    let f = fudge as u64;
+    let mut v = vec![t, t.saturating_sub(f), t + f, t.saturating_sub(f + 1), t + f + 1, t.saturating_sub(f.saturating_sub(1)), t + f.saturating_sub(1), 0, MAX_TIME, t.saturating_sub(f + 5), t + f + 5];
+    for x in v.iter_mut() {
+        if *x > MAX_TIME {
+            *x = MAX_TIME;
+        }
+    }
+    v.sort();
+    v.dedup();
+    v
+}
+
+fn other_alg(a: Algorithm) -> Algorithm {
+    if a == Algorithm::HmacSha1 { Algorithm::HmacSha256 } else { Algorithm::HmacSha1 }
+}
+
+fn swap_case(name: &[u8]) -> Vec<u8> {
+    // flip the case of the letters inside labels (a valid name stays the same name)
+    let mut v = name.to_vec();
+    let mut i = 0;
+    while i < v.len() && v[i] != 0 {
+        let n = v[i] as usize;
+        for j in i + 1..(i + 1 + n).min(v.len()) {
+            if v[j].is_ascii_alphabetic() {
+                v[j] ^= 0x20;
+            }
+        }
+        i += n + 1;
+    }
+    v
+}
+
+/// One signing case plus the verification cases derived from what the real code signed.
+fn sign_and_verify(rng: &mut Rng, em: &mut Emitter, thorough: bool, every_position: bool) {
+    let mode = *rng.pick(&MODES);
+    let alg = *rng.pick(&ALGS);
+    let key = rand_key(rng);
+    let msg = if rng.chance(1, 40) { let n = rng.below(12); rand_bytes(rng, n) } else { rand_message(rng, every_position) };
+    let keyname = rand_name(rng);
+    let time = rand_time(rng);
+    let fudge = rand_fudge(rng);
+    let origid = rng.below(65536) as u16;
+    let error = rand_error(rng);
+    let servertime = rand_time(rng);
+    let pmac = rand_pmac(rng, mode);
+    let case = format!(
+        "tsign {} {} {} {} {} {} {} {} {} {} {}",
+        mode, alg_str(alg), hex(&key), hex(&msg), hex(&keyname), time, fudge, origid, error, servertime, hex(&pmac)
+    );
+    let r = emit(em, case);
+    let mac = match r.strip_prefix("ok ") {
+        Some(rest) => unhex(rest.split(' ').next().unwrap()).unwrap(),
+        // the real code panicked (short message / ARCOUNT 0): verify with a made-up MAC all the same
+        None => rand_bytes(rng, alg.output_size()),
+    };
+    let s = Signed { mode, alg, key, msg, keyname, time, fudge, origid, error, servertime, pmac, mac };
+    let out = alg.output_size();
+    let full = s.rdata(&s.mac);
+
+    // 1. the signer's own output, at times around the window
+    let times = window_times(s.time, s.fudge);
+    let picks: Vec<u64> = if thorough { times.clone() } else { (0..3).map(|_| *rng.pick(&times)).collect() };
+    for now in picks {
+        emit(em, verify_case(mode, alg, &s.key, now, &s.msg, &s.keyname, &full, &s.pmac));
+    }
+    // key name / algorithm name in another case: same name, must still verify
+    emit(em, verify_case(mode, alg, &s.key, s.time, &s.msg, &swap_case(&s.keyname), &full, &s.pmac));
+    if rng.chance(1, 3) {
+        let o = s.other();
+        let rd = s.rdata_with(&swap_case(&s.alg_name()), s.time, s.fudge, &s.mac, s.origid, s.error, &o, o.len() as u16);
+        emit(em, verify_case(mode, alg, &s.key, s.time, &s.msg, &s.keyname, &rd, &s.pmac));
+    }
+
+    // 2. truncated / extended MACs
+    let lens: Vec<usize> = if thorough || rng.chance(1, 8) { (0..=out + 1).collect() } else { (0..3).map(|_| rng.below(out + 2)).collect() };
+    for n in lens {
+        let mut m = s.mac.clone();
+        m.resize(n.max(m.len()), 0x5a);
+        let m = &m[..n];
+        // inside and outside the time window: FormErr > BadSig > BadTime
+        let now = if rng.chance(2, 3) { s.time } else { *rng.pick(&times) };
+        emit(em, verify_case(mode, alg, &s.key, now, &s.msg, &s.keyname, &s.rdata(m), &s.pmac));
+        if rng.chance(1, 3) && n > 0 {
+            // truncated and wrong in the last kept octet
+            let mut w = m.to_vec();
+            w[n - 1] ^= 1 << rng.below(8);
+            emit(em, verify_case(mode, alg, &s.key, now, &s.msg, &s.keyname, &s.rdata(&w), &s.pmac));
+        }
+    }
+
+    // 3. wrong key / algorithm / prior MAC / mode
+    let now = if rng.chance(3, 4) { s.time } else { *rng.pick(&times) };
+    let mut k2 = s.key.clone();
+    if k2.is_empty() || rng.chance(1, 3) { k2.push(rng.byte()) } else { let i = rng.below(k2.len()); k2[i] ^= 1 << rng.below(8) }
+    emit(em, verify_case(mode, alg, &k2, now, &s.msg, &s.keyname, &full, &s.pmac));
+    // algorithm argument differs from the RR's algorithm name: assert_eq! panics
+    emit(em, verify_case(mode, other_alg(alg), &s.key, now, &s.msg, &s.keyname, &full, &s.pmac));
+    // RR rewritten to name the other algorithm
+    {
+        let o = s.other();
+        let oa = other_alg(alg);
+        let rd = s.rdata_with(oa.name().wire_repr(), s.time, s.fudge, &s.mac, s.origid, s.error, &o, o.len() as u16);
+        emit(em, verify_case(mode, oa, &s.key, now, &s.msg, &s.keyname, &rd, &s.pmac));
+    }
+    if mode != "req" {
+        let mut p2 = s.pmac.clone();
+        match rng.below(3) {
+            0 => p2.push(0),
+            1 if !p2.is_empty() => { p2.pop(); }
+            _ => { if p2.is_empty() { p2.push(1) } else { let i = rng.below(p2.len()); p2[i] ^= 1 << rng.below(8) } }
+        }
+        emit(em, verify_case(mode, alg, &s.key, now, &s.msg, &s.keyname, &full, &p2));
+    }
+    let m2 = *rng.pick(&MODES);
+    if m2 != mode {
+        emit(em, verify_case(m2, alg, &s.key, now, &s.msg, &s.keyname, &full, &s.pmac));
+    }
+
+    // 4. every TSIG variable altered, MAC kept
+    {
+        let o = s.other();
+        let ol = o.len() as u16;
+        let an = s.alg_name();
+        let bit16 = 1u16 << rng.below(16);
+        let bit48 = 1u64 << rng.below(48);
+        let mut alts: Vec<(Vec<u8>, Vec<u8>)> = Vec::new(); // (keyname, rdata)
+        alts.push((s.keyname.clone(), s.rdata_with(&an, s.time ^ bit48, s.fudge, &s.mac, s.origid, s.error, &o, ol)));
+        alts.push((s.keyname.clone(), s.rdata_with(&an, s.time, s.fudge ^ bit16, &s.mac, s.origid, s.error, &o, ol)));
+        alts.push((s.keyname.clone(), s.rdata_with(&an, s.time, s.fudge, &s.mac, s.origid ^ bit16, s.error, &o, ol)));
+        alts.push((s.keyname.clone(), s.rdata_with(&an, s.time, s.fudge, &s.mac, s.origid, s.error ^ bit16, &o, ol)));
+        // other data: appended octet, changed octet, dropped
+        let mut o2 = o.clone();
+        o2.push(rng.byte());
+        alts.push((s.keyname.clone(), s.rdata_with(&an, s.time, s.fudge, &s.mac, s.origid, s.error, &o2, o2.len() as u16)));
+        if !o.is_empty() {
+            let mut o3 = o.clone();
+            let i = rng.below(o3.len());
+            o3[i] ^= 1 << rng.below(8);
+            alts.push((s.keyname.clone(), s.rdata_with(&an, s.time, s.fudge, &s.mac, s.origid, s.error, &o3, ol)));
+            alts.push((s.keyname.clone(), s.rdata_with(&an, s.time, s.fudge, &s.mac, s.origid, s.error, &[], 0)));
+        }
+        // key name: another name (a letter changed to a non-letter-equivalent, a label added)
+        let mut kn = s.keyname.clone();
+        if kn.len() > 1 {
+            let i = 1 + rng.below(kn[0] as usize);
+            kn[i] = if kn[i] == b'0' { b'1' } else { b'0' };
+            alts.push((kn, full.clone()));
+        }
+        if s.keyname.len() + 2 <= 255 {
+            let mut kn = vec![1u8, b'x'];
+            kn.extend(&s.keyname);
+            alts.push((kn, full.clone()));
+        }
+        for (kn, rd) in alts {
+            let now = if rng.chance(3, 4) { s.time } else { *rng.pick(&times) };
+            emit(em, verify_case(mode, alg, &s.key, now, &s.msg, &kn, &rd, &s.pmac));
+        }
+        // malformed RDATA: other-len field disagrees, truncated
+        emit(em, verify_case(mode, alg, &s.key, s.time, &s.msg, &s.keyname, &s.rdata_with(&an, s.time, s.fudge, &s.mac, s.origid, s.error, &o, ol + 1), &s.pmac));
+        let cut = rng.below(full.len());
+        emit(em, verify_case(mode, alg, &s.key, s.time, &s.msg, &s.keyname, &full[..cut], &s.pmac));
+    }
+
+    // 5. single-octet corruption of the covered message
+    if !s.msg.is_empty() {
+        let positions: Vec<usize> = if every_position { (0..s.msg.len()).collect() } else { (0..6).map(|_| rng.below(s.msg.len())).chain([0, 1, 2, 9, 10, 11, s.msg.len() - 1]).filter(|&i| i < s.msg.len()).collect() };
+        for i in positions {
+            let mut m = s.msg.clone();
+            m[i] ^= if rng.chance(1, 2) { 1 << rng.below(8) } else { rng.range(1, 255) as u8 };
+            emit(em, verify_case(mode, alg, &s.key, s.time, &m, &s.keyname, &full, &s.pmac));
+        }
+        // an octet appended / removed at the end
+        let mut m = s.msg.clone();
+        m.push(rng.byte());
+        emit(em, verify_case(mode, alg, &s.key, s.time, &m, &s.keyname, &full, &s.pmac));
+        let mut m = s.msg.clone();
+        m.pop();
+        emit(em, verify_case(mode, alg, &s.key, s.time, &m, &s.keyname, &full, &s.pmac));
+        // the message ID is *not* covered (it is replaced by the original ID): must still verify
+        if s.msg.len() >= 12 {
+            let mut m = s.msg.clone();
+            m[0] = rng.byte();
+            m[1] = rng.byte();
+            emit(em, verify_case(mode, alg, &s.key, s.time, &m, &s.keyname, &full, &s.pmac));
+        }
+    }
+}
+
+fn rand_recipe(rng: &mut Rng) -> String {
+    let mut steps: Vec<String> = Vec::new();
+    if rng.chance(1, 4) {
+        steps.push(format!("buf:{}", *rng.pick(&[512usize, 1232, 4096, 65535])));
+    }
+    steps.push(format!("id:{}", rng.below(65536)));
+    if rng.chance(2, 3) {
+        steps.push(format!("fl:{}{}{}{}{}", rng.below(2), rng.below(2), rng.below(2), rng.below(2), rng.below(2)));
+    }
+    let early_tsig = rng.chance(1, 3);
+    let edns = rng.chance(1, 3);
+    if early_tsig && rng.chance(1, 2) {
+        steps.push("tsig".into());
+    }
+    for _ in 0..(if rng.chance(5, 6) { 1 } else { 0 }) {
+        let n = if rng.chance(1, 10) { rand_name(rng) } else { short_name(rng) };
+        steps.push(format!("q:{}:{}:{}", hex(&n), *rng.pick(&[1u16, 16, 252, 255, 6]), *rng.pick(&[1u16, 3, 255])));
+    }
+    if edns && rng.chance(1, 2) {
+        steps.push(format!("edns:{}", *rng.pick(&[512u16, 1232, 4096])));
+    }
+    for sec in ["an", "ns", "ar"] {
+        for _ in 0..rng.below(3) {
+            let owner = short_name(rng);
+            // TXT / unknown type / NULL: RDATA without names, so the recipe stays valid by construction
+            let (ty, rd) = match rng.below(3) {
+                0 => {
+                    let n = rng.below(20);
+                    let mut v = vec![n as u8];
+                    v.extend(rand_bytes(rng, n));
+                    (16u16, v)
+                }
+                1 => { let n = rng.below(30); (65280u16, rand_bytes(rng, n)) }
+                _ => (1u16, rand_bytes(rng, 4)),
+            };
+            steps.push(format!("{}:{}:{}:1:{}:{}", sec, hex(&owner), ty, rng.below(100000), hex(&rd)));
+        }
+    }
+    if early_tsig {
+        steps.push("tsig".into());
+    }
+    if edns && !steps.iter().any(|s| s.starts_with("edns")) {
+        steps.push("edns:1232".into());
+    }
+    steps.join(";")
+}
+
+fn short_name(rng: &mut Rng) -> Vec<u8> {
+    let mut v = Vec::new();
+    for _ in 0..rng.range(1, 3) {
+        let n = rng.range(1, 8);
+        v.extend(rand_label(rng, n));
+    }
+    v.push(0);
+    v
+}
+
+/// A message written by the real `Writer`, its MAC and TSIG RR, then whole-message verification
+/// through the real `Reader` with corruption anywhere in the message (TSIG RR included).
+fn write_and_verify(rng: &mut Rng, em: &mut Emitter, thorough: bool, every_position: bool) {
+    let mode = *rng.pick(&MODES);
+    let alg = *rng.pick(&ALGS);
+    let key = rand_key(rng);
+    let keyname = if rng.chance(1, 8) { rand_name(rng) } else { short_name(rng) };
+    let time = rand_time(rng);
+    let fudge = rand_fudge(rng);
+    let origid = rng.below(65536) as u16;
+    let error = rand_error(rng);
+    let servertime = rand_time(rng);
+    let pmac = rand_pmac(rng, mode);
+    let recipe = rand_recipe(rng);
+    // run the Writer once to learn the prefix (an *input* of the case for the model)
+    let (Some(p), Some(tm)) = (
+        prepared(&hex(&keyname), &time.to_string(), &fudge.to_string(), &origid.to_string(), &error.to_string(), &servertime.to_string()),
+        tsig_mode(mode, alg, &key, &pmac),
+    ) else { return };
+    let Ok((msg, _)) = write_message(&recipe, tm, p) else { return };
+    let Ok((prefix, _)) = split_last_rr(&msg) else { return };
+    let case = format!(
+        "twrite {} {} {} {} {} {} {} {} {} {} {} {}",
+        mode, alg_str(alg), hex(&key), hex(&keyname), time, fudge, origid, error, servertime, hex(&pmac), recipe, hex(prefix)
+    );
+    emit(em, case);
+
+    // whole-message verification
+    let tv = |now: u64, m: &[u8], key: &[u8], pmac: &[u8]| format!("tvmsg {} {} {} {} {} {}", mode, alg_str(alg), hex(key), now, hex(m), hex(pmac));
+    let times = window_times(time, fudge);
+    let picks: Vec<u64> = if thorough { times.clone() } else { (0..2).map(|_| *rng.pick(&times)).chain([time]).collect() };
+    for now in picks {
+        emit(em, tv(now, &msg, &key, &pmac));
+    }
+    let positions: Vec<usize> = if every_position && msg.len() <= 300 { (0..msg.len()).collect() } else { (0..8).map(|_| rng.below(msg.len())).collect() };
+    for i in positions {
+        let mut m = msg.clone();
+        m[i] ^= if rng.chance(1, 2) { 1 << rng.below(8) } else { rng.range(1, 255) as u8 };
+        emit(em, tv(time, &m, &key, &pmac));
+    }
+    // TTL of the TSIG RR (a TSIG variable, "MUST be 0"): the four TTL octets sit 10 + RDLENGTH before the end
+    let rdlen = msg.len() - prefix.len();
+    let _ = rdlen;
+    if let Ok((pre, rr)) = split_last_rr(&msg) {
+        let ttl_at = msg.len() - rr.rdata.len() - 6;
+        debug_assert!(ttl_at > pre.len());
+        for v in [0x8000_0000u32, 0xffff_ffff, 0x7fff_ffff, 1, 0x8000_0000 | rng.next() as u32] {
+            let mut m = msg.clone();
+            m[ttl_at..ttl_at + 4].copy_from_slice(&v.to_be_bytes());
+            emit(em, tv(time, &m, &key, &pmac));
+        }
+        // CLASS of the TSIG RR
+        let mut m = msg.clone();
+        m[ttl_at - 2..ttl_at].copy_from_slice(&(*rng.pick(&[1u16, 254, 0, 0xff00])).to_be_bytes());
+        emit(em, tv(time, &m, &key, &pmac));
+    }
+}
+
+fn primitives(rng: &mut Rng, em: &mut Emitter, thorough: bool) {
+    // every length around the padding boundaries, then random ones
+    let max = if thorough { 260 } else { 140 };
+    for n in 0..=max {
+        let m = rand_bytes(rng, n);
+        for a in ["sha1", "sha256"] {
+            emit(em, format!("sha {} {}", a, hex(&m)));
+        }
+    }
+    let n = if thorough { 3000 } else { 200 };
+    for _ in 0..n {
+        let len = if rng.chance(1, 20) { rng.range(1000, 20000) } else { rng.below(600) };
+        let m = rand_bytes(rng, len);
+        emit(em, format!("sha {} {}", *rng.pick(&["sha1", "sha256"]), hex(&m)));
+    }
+    // HMAC: key lengths 0..=200 (every length around the block size), message lengths likewise
+    for kl in (0..=200).filter(|k| thorough || *k <= 2 || (60..=70).contains(k) || k % 7 == 0 || *k >= 198) {
+        let key = rand_bytes(rng, kl);
+        let ml = rng.below(300);
+        let m = rand_bytes(rng, ml);
+        for a in ALGS {
+            emit(em, format!("hmac {} {} {}", alg_str(a), hex(&key), hex(&m)));
+        }
+    }
+    let n = if thorough { 5000 } else { 300 };
+    for _ in 0..n {
+        let key = rand_key(rng);
+        let ml = *rng.pick(&[0usize, 1, 54, 55, 56, 63, 64, 65, 119, 120, 128]);
+        let ml = if rng.chance(1, 2) { ml } else { rng.below(1500) };
+        let m = rand_bytes(rng, ml);
+        emit(em, format!("hmac {} {} {}", alg_str(*rng.pick(&ALGS)), hex(&key), hex(&m)));
+    }
+}
+
+pub fn gen(rng: &mut Rng, thorough: bool, em: &mut Emitter) {
+    primitives(rng, em, thorough);
+    // oversize prior MACs: the asserts of sign_response / sign_subsequent / verify_response, and the
+    // missing one of verify_subsequent
+    for mode in ["resp", "subs"] {
+        for n in [65535usize, 65536] {
+            let msg = rand_message(rng, true);
+            let pm = rand_bytes(rng, n);
+            let key = rand_key(rng);
+            let kn = short_name(rng);
+            let r = emit(em, format!("tsign {} hmac-sha256 {} {} {} 1600000000 300 7 0 0 {}", mode, hex(&key), hex(&msg), hex(&kn), hex(&pm)));
+            let mac = r.strip_prefix("ok ").and_then(|x| unhex(x.split(' ').next().unwrap())).unwrap_or_else(|| vec![7; 32]);
+            let s = Signed { mode: "subs", alg: Algorithm::HmacSha256, key: key.clone(), msg: msg.clone(), keyname: kn.clone(), time: 1_600_000_000, fudge: 300, origid: 7, error: 0, servertime: 0, pmac: vec![], mac: mac.clone() };
+            emit(em, verify_case(mode, Algorithm::HmacSha256, &key, 1_600_000_000, &msg, &kn, &s.rdata(&mac), &pm));
+        }
+    }
+    let n = if thorough { 6000 } else { 700 };
+    for _ in 0..n {
+        sign_and_verify(rng, em, thorough, false);
+    }
+    // every covered position of small messages
+    let n = if thorough { 1200 } else { 12 };
+    for _ in 0..n {
+        sign_and_verify(rng, em, false, true);
+    }
+    let n = if thorough { 4000 } else { 400 };
+    for _ in 0..n {
+        write_and_verify(rng, em, thorough, false);
+    }
+    let n = if thorough { 600 } else { 8 };
+    for _ in 0..n {
+        write_and_verify(rng, em, false, true);
+    }
+}
